@@ -174,6 +174,8 @@ pub struct Cluster<K: EngineKind> {
     pub rng: Rng,
     pub shared: Arc<Mutex<Shared>>,
     pub t0: Instant,
+    /// nodes taken down by a vote-window crash, to be restarted at the given virtual time
+    pub pending_restarts: Vec<(u32, u64)>,
 }
 
 fn addr(id: u32) -> String {
@@ -239,7 +241,7 @@ pub fn make_config(p: &Params, id: u32, initial: Vec<NodeMeta>, dir: &Path) -> R
     c
 }
 
-fn copy_dir(src: &Path, dst: &Path) -> std::io::Result<()> {
+pub(super) fn copy_dir(src: &Path, dst: &Path) -> std::io::Result<()> {
     std::fs::create_dir_all(dst)?;
     for e in std::fs::read_dir(src)? {
         let e = e?;
@@ -281,6 +283,7 @@ impl<K: EngineKind> Cluster<K> {
             rng: Rng::new(seed),
             shared,
             t0,
+            pending_restarts: Vec::new(),
         };
         c.install_hooks(seed);
         c
@@ -454,9 +457,15 @@ impl<K: EngineKind> Cluster<K> {
         let Some(slot) = self.slots.get_mut(&id) else { return };
         let Some(live) = slot.live.take() else { return };
         let new_dir = self.base.join(format!("n{}_{}", id, slot.inc + 1));
-        let _ = copy_dir(&slot.dir, &new_dir);
+        let staged = new_dir.exists();
+        if !staged {
+            let _ = copy_dir(&slot.dir, &new_dir);
+        } // else: a vote-window crash already took the image at the instant of the crash
         self.net.unregister(id);
-        self.rec.push(self.net.now(), Ev::Crash { node: id, inc: slot.inc });
+        self.net.clear_dead(id);
+        if !staged {
+            self.rec.push(self.net.now(), Ev::Crash { node: id, inc: slot.inc });
+        }
         live.abort_all();
         // Old instance keeps writing (Drop handlers) into the abandoned directory only.
         self.shared.lock().unwrap().roles.remove(&id);
@@ -503,6 +512,28 @@ impl<K: EngineKind> Cluster<K> {
         tokio::task::yield_now().await;
         self.shared.lock().unwrap().roles.remove(&id);
         slot.inc += 1;
+    }
+
+    /// Complete vote-window crashes staged by the network (image already taken, node already cut
+    /// off) and restart them a little later, while the election that made them vote is still on.
+    pub async fn service_vote_crashes(&mut self, cl: &ClientHandle) {
+        let staged = self.net.take_staged();
+        for id in staged {
+            self.crash(id);
+            let at = self.now() + self.rng.range(40, 220);
+            self.pending_restarts.push((id, at));
+            self.refresh(cl);
+        }
+        let now = self.now();
+        let due: Vec<u32> = self.pending_restarts.iter().filter(|(_, at)| *at <= now).map(|(i, _)| *i).collect();
+        self.pending_restarts.retain(|(_, at)| *at > now);
+        for id in due {
+            if self.node(id).is_none() && self.slots.contains_key(&id) {
+                self.rec.push(self.net.now(), Ev::Fault { desc: format!("restart {id} (after vote-window crash)") });
+                let _ = self.start(id).await;
+                self.refresh(cl);
+            }
+        }
     }
 
     pub fn live_ids(&self) -> Vec<u32> {
